@@ -1021,22 +1021,30 @@ func (o *ovsdbClient) monitor(ctx context.Context, cookie MonitorCookie, reconne
 
 	var lastTransactionFound bool
 	switch monitor.Method {
+	// NOTE: when the call fails because ctx ended, the reply may still arrive
+	// and be decoded into reply by the rpc read loop: only touch it on success
 	case ovsdb.MonitorRPC:
 		var reply ovsdb.TableUpdates
 		err = o.rpcClient.CallWithContext(ctx, monitor.Method, args, &reply)
-		tableUpdates = reply
+		if err == nil {
+			tableUpdates = reply
+		}
 	case ovsdb.ConditionalMonitorRPC:
 		var reply ovsdb.TableUpdates2
 		err = o.rpcClient.CallWithContext(ctx, monitor.Method, args, &reply)
-		tableUpdates = reply
+		if err == nil {
+			tableUpdates = reply
+		}
 	case ovsdb.ConditionalMonitorSinceRPC:
 		var reply ovsdb.MonitorCondSinceReply
 		err = o.rpcClient.CallWithContext(ctx, monitor.Method, args, &reply)
-		if err == nil && reply.Found {
-			monitor.LastTransactionID = reply.LastTransactionID
-			lastTransactionFound = true
+		if err == nil {
+			if reply.Found {
+				monitor.LastTransactionID = reply.LastTransactionID
+				lastTransactionFound = true
+			}
+			tableUpdates = reply.Updates
 		}
-		tableUpdates = reply.Updates
 	default:
 		stopDeferringUpdates(false)
 		return fmt.Errorf("unsupported monitor method: %v", monitor.Method)
@@ -1150,6 +1158,7 @@ func (o *ovsdbClient) Echo(ctx context.Context) error {
 		if err == rpc2.ErrShutdown {
 			return ErrNotConnected
 		}
+		return err
 	}
 	if !reflect.DeepEqual(args, reply) {
 		return fmt.Errorf("incorrect server response: %v, %v", args, reply)
